@@ -32,12 +32,20 @@ Proof.
   rewrite firstn_O, app_nil_r. reflexivity.
 Qed.
 
+Lemma carried_skipn_skipn (A : Type) (y : nat) : forall (x : nat) (l : list A),
+  skipn x (skipn y l) = skipn (y + x) l.
+Proof.
+  induction y as [|y IH]; intros x l; [reflexivity|].
+  destruct l as [|a l]; [rewrite !skipn_nil; reflexivity|].
+  cbn [skipn Nat.add]. apply IH.
+Qed.
+
 Lemma carried_sub_skipn (l : bytes) (k i j : N) :
   sub (skipn (N.to_nat k) l) i j = sub l (k + i) (k + j).
 Proof.
-  unfold sub. rewrite skipn_skipn.
+  unfold sub. rewrite carried_skipn_skipn.
   replace (N.to_nat (k + j - (k + i))) with (N.to_nat (j - i)) by lia.
-  replace (N.to_nat (k + i)) with (N.to_nat i + N.to_nat k)%nat by lia.
+  replace (N.to_nat (k + i)) with (N.to_nat k + N.to_nat i)%nat by lia.
   reflexivity.
 Qed.
 
@@ -112,5 +120,23 @@ Proof.
              destruct c eqn:?; cbv beta iota zeta; try discriminate
          end.
   intros H. apply carried_find_loop in H. cbn [b_data b_len] in H.
+  match type of H with
+  | carried_entry (skipn (N.to_nat (?bd + ?el - ?el)) _) _ _ =>
+      set (EL := el) in *; set (BD := bd) in *
+  end.
+  clearbody BD EL.
+  assert (K : BD + EL <= blen data).
+  { match goal with
+    | H1 : (b_len l <? BD + EL) = false |- _ => clear - H1 Hl; lia
+    end. }
+  change (b_data l) with (data ++ slack) in H.
+  clear - K H.
+  replace (BD + EL - EL) with BD in H by lia.
   destruct H as (j & b1 & b2 & A & B & C).
-Admitted.
+  rewrite carried_sub_skipn in B, C.
+  rewrite carried_sub_app_l in B, C by lia.
+  exists (BD + (j + 3)), b1, b2.
+  split; [lia|]. split; [lia|]. split.
+  - replace (BD + (j + 3) - 3) with (BD + j) by lia. exact B.
+  - rewrite C. f_equal. f_equal. lia.
+Qed.
